@@ -455,7 +455,7 @@ func (o *baseObject) setProto(proto *Object, throw bool) bool {
 		return true
 	}
 	if !o.extensible {
-		o.val.runtime.typeErrorResult(throw, "%s is not extensible", o.val)
+		o.val.runtime.typeErrorResult(throw, "#<%s> is not extensible", o.class)
 		return false
 	}
 	for p := proto; p != nil; p = p.self.proto() {
